@@ -480,6 +480,41 @@ theorem c17_keys_per_stage (f validate : Fn) (x y : V) (h : f x = .ok y) (hy : y
     simp only [Fn.ofCheck, hv]
     cases x <;> first | rfl | (rename_i b; cases b <;> first | rfl | exact absurd rfl hx)
 
+/-! ### going on after an exception -/
+
+/-- **What a stage is after an exception has passed through it** (its own, or one from below).  The exception is
+    raised ONCE.  `map` / `filter` / `takewhile` / `dropwhile` — iterator objects whose `__next__` just lets the
+    exception through — are what they were (same counters, same flags) and answer the next `next()` with the next
+    element; every other stage — the generators `_iterate`, `chunked_iter`, `split_iter`, `unique_iter`, and
+    `islice` / `chain.from_iterable`, which drop their source — is finished: `StopIteration` from then on, whatever
+    it was holding (an open chunk, a group) is lost, and it pulls no further. -/
+theorem c17_after_exception (s : StageSt) (e : Err) (ho : s.out = []) (he : s.err = some e) :
+    s.poll = (.fail e, s.afterError) ∧
+    (∀ a s', s.afterError.poll = (a, s') → ∀ e', a ≠ .fail e') ∧
+    (s.core.kind.survives = true → s.afterError = { s with err := none }) ∧
+    (s.core.kind.survives = false → s.afterError.poll = (.done, s.afterError)) ∧
+    (∀ k : Kind, k.survives = true ↔ (match k with
+      | .map _ | .filter _ | .takewhile _ | .dropwhile _ => True | _ => False)) := by
+  refine ⟨by simp [StageSt.poll, ho, he], ?_, ?_, ?_, ?_⟩
+  · intro a s' h e' hae
+    subst hae
+    by_cases hs : s.core.kind.survives = true
+    · simp [StageSt.afterError, hs, StageSt.poll, ho] at h
+      split at h <;> simp at h
+    · simp [StageSt.afterError, hs, StageSt.poll] at h
+  · intro hs; simp [StageSt.afterError, hs]
+  · intro hs; simp [StageSt.afterError, hs, StageSt.poll]
+  · intro k; cases k <;> simp [Kind.survives]
+
+/-- **Up to the first exception the event reference is the trace reference**: for a stage that does not survive an
+    exception, the events a catch-and-continue consumer sees on an exception-free input (`evFold`, the reference of the
+    `events` cases) are the items of the stage's trace, then the exception it ends with, then nothing.  (Full statement,
+    validated by the correspondence only: for every chain, `nextN` — the model pulled on after every exception — yields
+    the first events of `evPipe kinds (srcEvents xs tail)`.) -/
+theorem c17_events_until_first_exception_partial (us : List V) (c : Core) (h : c.kind.survives = false) :
+    evFold c (us.map .item) = (foldCore c us .eof).events :=
+  evFold_eq_trace us c h
+
 /-! ### laziness in closed form -/
 
 /-- **How much lookahead each stage has**, for the stages whose lookahead does not depend on the
@@ -1066,6 +1101,22 @@ example : (match ((World.empty.run [.fin srcA none, .fin srcB none] 30 [.open 0 
       ((World.empty.run [.fin srcA none, .fin srcB none] 30 [.open 1 uniqKinds 1]).1.view 1) with
     | some (s1, p1, d1, i1), some (s2, p2, d2, i2) => s1.length == s2.length && p1 == p2 && d1 == d2 && i1 == i2
     | _, _ => false) = true := by decide
+-- `c17_after_exception` in a run: `Iter().map(bad3)` over `1 2 3 4 5`, pulled six times: `1 2 <ValueError> 4 5 <end>`, all five
+-- items pulled; with `Iter(bad3)` (the generator `_iterate`) the stream ends after the exception and `4 5` stay in the source
+private def bad3 : Fn := fun x => match x with | .int 3 => .error "ValueError" | _ => .ok x
+private def oneToFive : Src := .fin [.int 1, .int 2, .int 3, .int 4, .int 5] none
+example : (match runEvents [.base idBase none, .map bad3] oneToFive 30 6 with
+    | .opened [(some (.item (.int 1)), 1), (some (.item (.int 2)), 2), (some (.err "ValueError"), 3),
+               (some (.item (.int 4)), 4), (some (.item (.int 5)), 5), (none, 5)] => true
+    | _ => false) = true := by decide
+example : (match runEvents [.base (BaseFn.ofFn bad3) none] oneToFive 30 6 with
+    | .opened [(some (.item (.int 1)), 1), (some (.item (.int 2)), 2), (some (.err "ValueError"), 3), (none, 3)] => true
+    | _ => false) = true := by decide
+-- the reference says the same, and rejects a stream that ends where `map` goes on
+example : checkEvents [.base idBase none, .map bad3] [.int 1, .int 2, .int 3, .int 4] none
+    [some (.item (.int 1)), some (.item (.int 2)), some (.err "ValueError"), some (.item (.int 4)), none] = true ∧
+    checkEvents [.base idBase none, .map bad3] [.int 1, .int 2, .int 3, .int 4] none
+    [some (.item (.int 1)), some (.item (.int 2)), some (.err "ValueError"), none] = false := by decide
 -- `c17_model_checks_take_glomit`: `Iter().windowed(2).limit(-1)`: glom() raises ValueError after ONE item was pulled
 -- (the window's priming), `Iter().limit(-1).windowed(2)`: after none; `chunked(0)` raises at the first next(), nothing pulled
 example : (match runTakeG [.base idBase none, .windowed 2, limitMethod (.int (-1))] nat 30 3 with
